@@ -207,6 +207,35 @@ def write_cells():
                        lambda P, z, v, p=off + en_pos: setb(P, z, p, p, v, 8), setup=SETUP))
         cs.append(Cell(f"bitfield-write|C17Reg.{sub}.mode", [("z", BV(8)), ("v", U(3))], BV(8), f"{{o}} <<= {{z}}\nC17Reg({{o}}).{sub}.mode <<= {{v}}",
                        lambda P, z, v, p=off + mode_lo: setb(P, z, p + 2, p, v, 8), setup=SETUP))
+    # value semantics: to_bits / from_bits results are snapshots (new objects), not live views of their source
+    cs.append(Cell("snapshot|to_bits(SFixed variable)", [("a", BV(3)), ("b", BV(3))], BV(3),
+                   "c17acc = std.from_bits[std.SFixed[1:-1]]({a}, std.Variable)\nc17snap = std.to_bits(c17acc)\nc17acc @= std.from_bits[std.SFixed[1:-1]]({b})\n{o} <<= c17snap", lambda P, a, b: a, setup=SETUP))
+    cs.append(Cell("snapshot|to_bits(UFixed variable)", [("a", BV(4)), ("b", BV(4))], BV(4),
+                   "c17acc = std.from_bits[std.UFixed[1:-2]]({a}, std.Variable)\nc17snap = std.to_bits(c17acc)\nc17acc @= std.from_bits[std.UFixed[1:-2]]({b})\n{o} <<= c17snap", lambda P, a, b: a, setup=SETUP))
+    cs.append(Cell("snapshot|to_bits(record variable)", [("a", BV(3)), ("b", BV(3))], BV(3),
+                   "c17r = std.from_bits[C17R1]({a}, std.Variable)\nc17snap = std.to_bits(c17r)\nc17r @= std.from_bits[C17R1]({b})\n{o} <<= c17snap", lambda P, a, b: a, setup=SETUP))
+    cs.append(Cell("snapshot|from_bits(raw variable)", [("a", BV(3)), ("b", BV(3))], BV(3),
+                   "c17raw = std.Variable[BitVector[3]]({a})\nc17rec = std.from_bits[C17R1](c17raw)\nc17raw @= {b}\n{o} <<= std.to_bits(c17rec)", lambda P, a, b: a, setup=SETUP))
+    cs.append(Cell("snapshot|from_bits(raw variable, std.Variable) is a private copy", [("a", BV(3)), ("b", BIT)], BV(3),
+                   "c17raw = std.Variable[BitVector[3]]({a})\nc17work = std.from_bits[C17R1](c17raw, std.Variable)\nc17work.a @= {b}\n{o} <<= c17raw", lambda P, a, b: a, setup=SETUP))
+    cs.append(Cell("snapshot|from_bits(raw variable, std.Variable) keeps its own value", [("a", BV(3)), ("b", BV(3))], BIT,
+                   "c17raw = std.Variable[BitVector[3]]({a})\nc17work = std.from_bits[C17R1](c17raw, std.Variable)\nc17raw @= {b}\n{o} <<= c17work.a", lambda P, a, b: field(P, a, 0, 1), setup=SETUP))
+    # a qualified BitField: nested fields address the bits of the one register
+    cs.append(Cell("bitfield-signal|nested write", [("z", BV(8)), ("v", BV(3))], BV(8),
+                   "c17reg = std.Signal[C17BFO]({z})\nc17reg.inner.mid <<= {v}\n{o} <<= std.to_bits(c17reg)", lambda P, z, v: z, setup=SETUP, note="signal assignment: old value this step"))
+    return cs
+
+
+def write2_cells():
+    """two clocks: a BitField with the Signal qualifier declared in the architecture, written through nested fields"""
+    cs = []
+    loc = "c17g{cellno} = std.Signal[C17BFO]()"
+    cs.append(Cell("bitfield-signal|nested field write reaches the register", [("v", BV(3)), ("w", BV(2))], BV(3),
+                   "c17g{cellno}.inner.mid <<= {v}\nc17g{cellno}.low <<= {w}\n{o} <<= std.to_bits(c17g{cellno})[5:3]", lambda P, v, w: v, setup=SETUP, local=loc))
+    cs.append(Cell("bitfield-signal|nested field read back", [("v", BV(3)), ("w", BV(2))], BV(3),
+                   "c17g{cellno}.inner.mid <<= {v}\nc17g{cellno}.low <<= {w}\n{o} <<= c17g{cellno}.inner.mid", lambda P, v, w: v, setup=SETUP, local=loc))
+    cs.append(Cell("bitfield-signal|flat field next to nested", [("v", BV(3)), ("w", BV(2))], BV(2),
+                   "c17g{cellno}.inner.mid <<= {v}\nc17g{cellno}.low <<= {w}\n{o} <<= std.to_bits(c17g{cellno})[1:0]", lambda P, v, w: w, setup=SETUP, local=loc))
     return cs
 
 
@@ -215,7 +244,7 @@ def run(tier: str) -> int:
     wd = Workdir()
     counts = {}
     try:
-        jobs = [("concurrent", cells()), ("clocked", write_cells())]
+        jobs = [("concurrent", cells()), ("clocked", write_cells()), ("clocked2", write2_cells())]
         total = 0
         for ctx, cs in jobs:
             total += len(cs)
